@@ -550,6 +550,19 @@ func varargElems(v ssa.Value) []ssa.Value {
 	}
 	m := map[int64]ssa.Value{}
 	for _, r := range *a.Referrers() {
+		// elements rewritten through a slice of the array (a loop that normalises
+		// every element in place): what is joined is not what was stored
+		if s2, isSl := r.(*ssa.Slice); isSl && s2.Referrers() != nil {
+			for _, rr := range *s2.Referrers() {
+				if ia2, isIA := rr.(*ssa.IndexAddr); isIA && ia2.Referrers() != nil {
+					for _, r3 := range *ia2.Referrers() {
+						if _, isSt := r3.(*ssa.Store); isSt {
+							return nil
+						}
+					}
+				}
+			}
+		}
 		ia, ok := r.(*ssa.IndexAddr)
 		if !ok || ia.Referrers() == nil {
 			continue
